@@ -67,6 +67,8 @@ pub struct Model<'p> {
     pub verified_without_exec: u64,
     pub c03_judged: u64,
     pub check_c03: bool,
+    /// nodes at or below a member of an unordered dependency group
+    pub unord_below: HashSet<u32>,
 }
 
 struct ModelReader<'a, 'p>(&'a Model<'p>);
@@ -111,6 +113,7 @@ impl<'p> Model<'p> {
             verified_without_exec: 0,
             c03_judged: 0,
             check_c03: true,
+            unord_below: unord_below(prog),
         }
     }
 
@@ -286,13 +289,21 @@ impl<'p> Model<'p> {
         if old {
             self.serves_old += 1;
             if self.exposed.is_none() {
-                let mut cl = self.closure_latest(n);
-                cl.insert(n);
+                // firewalls strictly below n: n itself is repaired through
+                // its own dirty edges whoever asks for it
+                let cl = self.closure_latest(n);
                 for f in cl {
                     if self.prog.kind(f) == Kind::Fw
                         && !self.touched.contains(&f)
                         && (self.stale(f) || self.dirty_since_cover.contains(&f))
                     {
+                        if std::env::var("VERIF_DEBUG").is_ok() {
+                            eprintln!(
+                                "EXPOSE n={n} f={f} touched={:?} pending={:?} dirty={:?} stale={} execs_f={:?}",
+                                self.touched, self.pending, self.dirty_since_cover, self.stale(f),
+                                self.execs.get(&f).map(|v| v.iter().map(|r| (r.epoch, r.value.clone())).collect::<Vec<_>>())
+                            );
+                        }
                         self.exposed = Some(format!(
                             "epoch {}: {ctx} served node {n} computed in an \
                              earlier epoch; firewall {f} in its recorded \
@@ -375,7 +386,12 @@ impl<'p> Model<'p> {
                              times between two input sessions",
                             self.epoch
                         ),
-                        known: None,
+                        // KF-C03-1: the engine aborts the sibling checks of
+                        // an unordered group when one of them finds a change
+                        known: self
+                            .unord_below
+                            .contains(&n)
+                            .then(|| "KF-C03-1".to_string()),
                     });
                 }
                 if let Some(prev) = &prev
@@ -449,4 +465,38 @@ impl<'p> Model<'p> {
             }
         }
     }
+}
+
+fn unord_below(prog: &Program) -> HashSet<u32> {
+    fn groups(e: &crate::program::Expr, out: &mut Vec<u32>) {
+        use crate::program::Expr;
+        match e {
+            Expr::Unord(v) => out.extend(v.iter().copied()),
+            Expr::Const(_) | Expr::Read(_) | Expr::Join(_) => {}
+            Expr::Idx(a, _) | Expr::Mul(a, _) | Expr::Mod(a, _) => groups(a, out),
+            Expr::Add(a, b) | Expr::Min(a, b) | Expr::Cat(a, b) => {
+                groups(a, out);
+                groups(b, out);
+            }
+            Expr::If(c, t, f) => {
+                groups(c, out);
+                groups(t, out);
+                groups(f, out);
+            }
+        }
+    }
+    let mut work = Vec::new();
+    for (i, n) in prog.nodes.iter().enumerate() {
+        if !matches!(n.kind, Kind::In | Kind::Ex) {
+            let _ = i;
+            groups(&n.expr, &mut work);
+        }
+    }
+    let mut seen: HashSet<u32> = HashSet::new();
+    while let Some(m) = work.pop() {
+        if seen.insert(m) {
+            work.extend(prog.static_deps(m));
+        }
+    }
+    seen
 }
